@@ -119,22 +119,21 @@ pub mod vx_ids {
         }
     }
 
-    /// concatenation of two canonical sequences, the first entirely in front of the second
-    pub proof fn lemma_concat<T: Merge>(a: Seq<Ent<T>>, b: Seq<Ent<T>>)
+    /// concatenation, part 1: order
+    pub proof fn lemma_concat_sorted<T>(a: Seq<Ent<T>>, b: Seq<Ent<T>>)
         requires
-            canon(a),
-            canon(b),
+            sorted(a),
+            nonempty(a),
+            sorted(b),
+            nonempty(b),
             a.len() > 0 && b.len() > 0 ==> a.last().0.end <= b[0].0.start,
-            a.len() > 0 && b.len() > 0 && a.last().0.end == b[0].0.start ==> !a.last().1.eq_spec(&b[0].1),
         ensures
-            canon(a + b),
-            forall|c: int| #[trigger] covers(a + b, c) <==> covers(a, c) || covers(b, c),
-            forall|c: int| covers(a, c) ==> #[trigger] val_at(a + b, c) == val_at(a, c),
-            forall|c: int| covers(b, c) ==> #[trigger] val_at(a + b, c) == val_at(b, c),
+            sorted(a + b),
+            nonempty(a + b),
     {
         let t = a + b;
         let n = a.len() as int;
-        assert forall|i: int| 0 <= i < t.len() implies (#[trigger] t[i]).0.start < t[i].0.end && t[i].1.wf() by {
+        assert forall|i: int| 0 <= i < t.len() implies (#[trigger] t[i]).0.start < t[i].0.end by {
             if i < n { assert(t[i] == a[i]); } else { assert(t[i] == b[i - n]); }
         }
         assert forall|i: int, j: int| 0 <= i < j < t.len() implies (#[trigger] t[i]).0.end <= (#[trigger] t[j]).0.start by {
@@ -154,6 +153,25 @@ pub mod vx_ids {
                 }
             }
         }
+    }
+
+    /// concatenation, part 2: values
+    pub proof fn lemma_concat_vals<T: Merge>(a: Seq<Ent<T>>, b: Seq<Ent<T>>)
+        requires
+            vals_wf(a),
+            vals_wf(b),
+            coalesced(a),
+            coalesced(b),
+            a.len() > 0 && b.len() > 0 && a.last().0.end == b[0].0.start ==> !a.last().1.eq_spec(&b[0].1),
+        ensures
+            vals_wf(a + b),
+            coalesced(a + b),
+    {
+        let t = a + b;
+        let n = a.len() as int;
+        assert forall|i: int| 0 <= i < t.len() implies (#[trigger] t[i]).1.wf() by {
+            if i < n { assert(t[i] == a[i]); } else { assert(t[i] == b[i - n]); }
+        }
         assert forall|i: int, j: int| 0 <= i && j == i + 1 && j < t.len() && (#[trigger] t[i]).0.end == (#[trigger] t[j]).0.start implies !t[i].1.eq_spec(&t[j].1) by {
             if j < n {
                 assert(t[i] == a[i] && t[j] == a[j]);
@@ -163,6 +181,19 @@ pub mod vx_ids {
                 assert(t[i] == a[n - 1] && t[j] == b[0]);
             }
         }
+    }
+
+    /// concatenation, part 3: coverage and value lookup
+    pub proof fn lemma_concat_cov<T>(a: Seq<Ent<T>>, b: Seq<Ent<T>>)
+        requires
+            sorted(a + b),
+        ensures
+            forall|c: int| #[trigger] covers(a + b, c) <==> covers(a, c) || covers(b, c),
+            forall|c: int| covers(a, c) ==> #[trigger] val_at(a + b, c) == val_at(a, c),
+            forall|c: int| covers(b, c) ==> #[trigger] val_at(a + b, c) == val_at(b, c),
+    {
+        let t = a + b;
+        let n = a.len() as int;
         assert forall|c: int| #[trigger] covers(t, c) <==> covers(a, c) || covers(b, c) by {
             if covers(t, c) {
                 let i = idx_of(t, c);
@@ -196,7 +227,26 @@ pub mod vx_ids {
         }
     }
 
+    /// concatenation of two canonical sequences, the first entirely in front of the second
+    pub proof fn lemma_concat<T: Merge>(a: Seq<Ent<T>>, b: Seq<Ent<T>>)
+        requires
+            canon(a),
+            canon(b),
+            a.len() > 0 && b.len() > 0 ==> a.last().0.end <= b[0].0.start,
+            a.len() > 0 && b.len() > 0 && a.last().0.end == b[0].0.start ==> !a.last().1.eq_spec(&b[0].1),
+        ensures
+            canon(a + b),
+            forall|c: int| #[trigger] covers(a + b, c) <==> covers(a, c) || covers(b, c),
+            forall|c: int| covers(a, c) ==> #[trigger] val_at(a + b, c) == val_at(a, c),
+            forall|c: int| covers(b, c) ==> #[trigger] val_at(a + b, c) == val_at(b, c),
+    {
+        lemma_concat_sorted(a, b);
+        lemma_concat_vals(a, b);
+        lemma_concat_cov(a, b);
+    }
+
     /// entries `[lo, hi)` of `o` replaced by `r`
+    #[verifier::opaque]
     pub open spec fn splice<T>(o: Seq<Ent<T>>, lo: int, hi: int, r: Seq<Ent<T>>) -> Seq<Ent<T>> {
         o.subrange(0, lo) + r + o.subrange(hi, o.len() as int)
     }
@@ -222,6 +272,7 @@ pub mod vx_ids {
             forall|c: int| covers(r, c) ==> #[trigger] val_at(splice(o, lo, hi, r), c) == val_at(r, c),
             forall|c: int| covers(o, c) && !(wa <= c < wb) ==> #[trigger] val_at(splice(o, lo, hi, r), c) == val_at(o, c),
     {
+        reveal(splice);
         let n = o.len() as int;
         let pre = o.subrange(0, lo);
         let suf = o.subrange(hi, n);
@@ -278,10 +329,48 @@ pub mod vx_ids {
         }
     }
 
+    /// the three stages of the drain + insert loop
+    pub proof fn lemma_splice_start<T>(o: Seq<Ent<T>>, lo: int, hi: int, r: Seq<Ent<T>>, s: Seq<Ent<T>>)
+        requires
+            0 <= lo <= hi <= o.len(),
+            s == o.subrange(0, lo) + o.subrange(hi, o.len() as int),
+        ensures
+            s == splice(o, lo, hi, r.subrange(0, 0)),
+            s.len() == lo + (o.len() - hi),
+    {
+        reveal(splice);
+        assert(s =~= splice(o, lo, hi, r.subrange(0, 0)));
+    }
+
+    pub proof fn lemma_splice_step<T>(o: Seq<Ent<T>>, lo: int, hi: int, r: Seq<Ent<T>>, i: int, s: Seq<Ent<T>>, s2: Seq<Ent<T>>)
+        requires
+            0 <= lo <= hi <= o.len(),
+            0 <= i < r.len(),
+            s == splice(o, lo, hi, r.subrange(0, i)),
+            s2 == s.insert(lo + i, r[i]),
+        ensures
+            s2 == splice(o, lo, hi, r.subrange(0, i + 1)),
+            s2.len() == lo + i + 1 + (o.len() - hi),
+    {
+        reveal(splice);
+        assert(s2 =~= splice(o, lo, hi, r.subrange(0, i + 1)));
+    }
+
+    pub proof fn lemma_splice_done<T>(o: Seq<Ent<T>>, lo: int, hi: int, r: Seq<Ent<T>>, i: int, s: Seq<Ent<T>>)
+        requires
+            i == r.len(),
+            s == splice(o, lo, hi, r.subrange(0, i)),
+        ensures
+            s == splice(o, lo, hi, r),
+    {
+        reveal(splice);
+        assert(r.subrange(0, i) =~= r);
+    }
+
     /// the contract of `insert_with` as a predicate on (old view, new view)
     pub open spec fn ins_post<T: Merge>(o: Seq<Ent<T>>, range: Range<u32>, value: T, res: Seq<Ent<T>>) -> bool {
         &&& canon(res)
-        &&& forall|c: int| covers(res, c) <==> covers(o, c) || inr(range, c)
+        &&& forall|c: int| #![trigger covers(res, c)] #![trigger covers(o, c)] #![trigger inr(range, c)] covers(res, c) <==> covers(o, c) || inr(range, c)
         &&& forall|c: int| covers(o, c) && !inr(range, c) ==> #[trigger] val_at(res, c).eq_spec(&val_at(o, c))
         &&& forall|c: int| !covers(o, c) && inr(range, c) ==> #[trigger] val_at(res, c).eq_spec(&value)
         &&& forall|c: int| covers(o, c) && inr(range, c) ==> #[trigger] val_at(res, c).eq_spec(&val_at(o, c).merge_spec(&value))
@@ -320,6 +409,7 @@ pub mod vx_ids {
         ensures
             ins_post(o, range, value, res),
     {
+        reveal(splice);
         let r = seq![(range, value)];
         assert(r[0] == (range, value));
         assert(canon(r));
@@ -683,6 +773,7 @@ pub mod vx_ids {
             ins_post(o, range, value, res),
             r.len() > 0,
     {
+        reveal(splice);
         let wa = win_lo(o, lo, range);
         let wb = win_hi(o, hi, range);
         lemma_win_facts(o, lo, hi, range, lo);
@@ -895,6 +986,8 @@ pub mod vx_ids {
         @before 1 `stmt:let repl_len`
             let ghost rp = replacement@;
             proof { lemma_step_tail(o, lo as int, hi as int, range, value, h0, rp); }
+        @after 1 `stmt:call vx_drain`
+            proof { lemma_splice_start(o, lo as int, hi as int, rp, self.0@); }
         @loop 3 iter=it
             invariant
                 i == it.index@,
@@ -902,16 +995,17 @@ pub mod vx_ids {
                 lo <= hi <= o.len(),
                 i <= rp.len(),
                 self.0.len() == lo + i + (o.len() - hi),
-                self.0@ == o.subrange(0, lo as int) + rp.subrange(0, i as int) + o.subrange(hi as int, o.len() as int),
+                self.0@ == splice(o, lo as int, hi as int, rp.subrange(0, i as int)),
+        @before 2 `stmt:call insert`
+            let ghost s0 = self.0@;
         @after 2 `stmt:call insert`
             proof {
-                assert(self.0@ =~= o.subrange(0, lo as int) + rp.subrange(0, i + 1) + o.subrange(hi as int, o.len() as int));
+                lemma_splice_step(o, lo as int, hi as int, rp, i as int, s0, self.0@);
                 assert(self.0.len() == lo + i + 1 + (o.len() - hi));
             }
         @before 1 `stmt:let splice_end`
             proof {
-                assert(rp.subrange(0, i as int) =~= rp);
-                assert(self.0@ =~= splice(o, lo as int, hi as int, rp));
+                lemma_splice_done(o, lo as int, hi as int, rp, i as int, self.0@);
                 lemma_ins_general(o, lo as int, hi as int, range, value, rp, self.0@);
             }
         @before 3 `stmt:assign end`
@@ -928,6 +1022,14 @@ pub mod vx_ids {
             ensures
                 canon(final(self)@),
                 forall|c: int| covers(final(self)@, c) <==> covers(old(self)@, c) || inr(range, c),
+        @end
+            proof {
+                // the callee's clause is triggered on `inr(range, c)` only: restate it with triggers on `covers`
+                assert forall|c: int| #![trigger covers(self@, c)] #![trigger covers(old(self)@, c)] covers(self@, c) <==> covers(old(self)@, c) || inr(range, c) by {
+                    let b = inr(range, c);
+                    assert(b || !b);
+                }
+            }
         @*/
     }
 }
